@@ -455,8 +455,18 @@ def check_index(program, rep):
                why='a matching component is not reported by get(T)')
 
 
+def check_visible(program, rep):
+    from rules import c05
+    rep.borrow(c05.run, program, rep, 'quick',
+               keep=lambda o: o.rule == 'C05.visible',
+               rename=lambda r: 'C06.match',
+               why='a type query filters on the pending set: it stops '
+               'matching components its sibling queries still match')
+
+
 def run(program, rep, tier):
     check_query_memo(program, rep)
+    check_visible(program, rep)
     check_index(program, rep)
     _NoInline.loop_bound = 5 if tier == 'thorough' else 3
     rep.extra['loop_bound'] = _NoInline.loop_bound
